@@ -209,3 +209,11 @@ impl OrphanBroker {
         }
     }
 }
+
+#[cfg(feature = "verif-hooks")]
+impl OrphanBroker {
+    /// verif-hooks: identity of this node's orphan pool (shared with its `ChainController`)
+    pub(crate) fn verif_pool_key(&self) -> usize {
+        Arc::as_ptr(&self.orphan_blocks_broker) as usize
+    }
+}
